@@ -4823,8 +4823,12 @@ class FST:
                 ):
                     return self
 
-                if not allow_exact and same_ln and same_end_ln and fcol == col and fend_col == end_col:
-                    return self
+                if same_ln and same_end_ln and fcol == col and fend_col == end_col:  # exact match
+                    if not allow_exact:
+                        return self
+
+                    if allow_exact == 'top':  # highest level node of those sharing this location
+                        return f
 
                 self = f
 
